@@ -150,7 +150,8 @@ Definition api_step (r:rnode) (a:api) : rnode * list event :=
   | ASendTxList dst idev tp => let i := bcast_dev dst idev in if valid_dev r i then osend r (fun r => send_tx_list r i dst tp) else (r, [])
   | ASendRxList dst idev tp => let i := bcast_dev dst idev in if valid_dev r i then osend r (fun r => send_rx_list r i dst tp) else (r, [])
   | ASendHeartbeatAll force =>
-    if negb (is_active_node (rn r)) then (r, []) else send_heartbeat_api force (length (n_devs (rn r))) r 0
+    (* nothing before Open() has completed (fix in /repo: the schedules still refer to the absolute clock there) *)
+    if negb (is_active_node (rn r)) || negb (n_open (rn r) =? 3) then (r, []) else send_heartbeat_api force (length (n_devs (rn r))) r 0
   | ASendHeartbeatDev idev =>
     (* SetHeartbeat(N2kMsg, Devices[iDev].HeartbeatScheduler.GetPeriod(), 0xff) is evaluated before SendMsg may open the node *)
     if is_active_node (rn r) && valid_dev r idev then
